@@ -265,6 +265,32 @@ func c04JSONSeeds(quick bool) (map[string][][]byte, [][]byte) {
 		add("interaction", []byte(`{"type":"Collection","items":[`+strings.Join(l, ",")+`],"to":[`+strings.Join(l, ",")+`]}`))
 		add("interaction", []byte(`[`+strings.Join(l, ",")+`]`))
 	}
+	// two members with the SAME id in one list (the decoder compares them while de-duplicating), the second with a nested member
+	// the first lacks, and the other way round - for every kind of nested or list-valued member
+	{
+		variants := []string{`"endpoints":{"sharedInbox":"https://example.com/inbox"}`, `"endpoints":{}`, `"endpoints":{"uploadMedia":{"id":"https://example.com/up","type":"Note"}}`,
+			`"publicKey":{"id":"https://example.com/k","owner":"https://example.com/u/1","publicKeyPem":"x"}`, `"publicKey":{}`, `"source":{"content":"x","mediaType":"text/plain"}`,
+			`"replies":{"id":"https://example.com/r","type":"Collection","items":["https://example.com/1"]}`, `"icon":{"type":"Image","url":"https://example.com/i.png"}`,
+			`"nameMap":{"en":"a","fr":"b"}`, `"name":"a"`, `"streams":["https://example.com/s"]`, `"url":[{"type":"Link","href":"https://example.com/h"},"https://example.com/h2"]`,
+			`"inbox":{"id":"https://example.com/in","type":"OrderedCollection","orderedItems":[{"type":"Like"}]}`, `"tag":[{"type":"Mention","href":"https://example.com/m"}]`, `"startTime":"2021-01-01T00:00:00Z"`}
+		for _, typ := range []string{"Person", "Note", "Like", "OrderedCollection"} {
+			for i, a := range variants {
+				b := variants[(i+1)%len(variants)]
+				one := fmt.Sprintf(`{"id":"https://example.com/u/1","type":%q,%s}`, typ, a)
+				two := fmt.Sprintf(`{"id":"https://example.com/u/1","type":%q,%s}`, typ, b)
+				bare := fmt.Sprintf(`{"id":"https://example.com/u/1","type":%q}`, typ)
+				add("interaction", []byte(`{"type":"Create","to":[`+one+`,`+two+`],"cc":[`+bare+`,`+one+`,"https://example.com/u/1"],"tag":[`+two+`,`+bare+`]}`))
+				add("interaction", []byte(`[`+one+`,`+bare+`,`+two+`]`))
+			}
+		}
+	}
+	// a term beside its Map form where the map says the same text again, also under "und" / "-" / "" and in last position
+	for _, term := range []string{"name", "summary", "content", "preferredUsername"} {
+		for _, m := range []string{`"en":"Hello","und":"Hello"`, `"und":"Hello","en":"Hello"`, `"-":"Hello","en":"Hello","":"Hello"`, `"en":"Hello","fr":"Hello","und":"Hello","-":"Hello"`, `"und":"Hello"`} {
+			add("interaction", []byte(fmt.Sprintf(`{"type":"Person",%q:"Hello",%q:{%s}}`, term, term+"Map", m)))
+			add("interaction", []byte(fmt.Sprintf(`{"type":"Note",%q:{%s},%q:{%s}}`, term, m, term+"Map", m)))
+		}
+	}
 	// language maps whose keys are BCP 47 tags with several subtags, singletons, private use, and malformed tags
 	for _, tags := range []string{`"zh-Hant-TW":"a","en-x-pirate":"b"`, `"de-DE-u-co-phonebk":"a","x-klingon":"b","es-419":"c"`, `"a-b-c-d-e-f-g-h":"x","-":"y","--":"z","en-":"w","-en":"v","":"u"`,
 		`"und":"a","UND":"b","en_US":"c","EN-us":"d"`, `"zh-Hant-TW":"only"`} {
@@ -468,6 +494,57 @@ func c04Run(c *engine.Ctx) {
 						c04Try(t, e, "len2", []byte{byte(hi), byte(lo)})
 					}
 					t.AddEvals(255, 256)
+				})
+			}
+		}
+	}
+	// 1b. lexical space of the scalar properties: every string of length <= 3 over the characters instants, durations and
+	// numbers are made of, as the value of every instant / duration / number / boolean property (the parsers of these values -
+	// some of them in dependencies - see exactly these strings)
+	{
+		alphabet := []byte("-+PT1.SZ:e")
+		var words []string
+		var gen func(cur []byte)
+		gen = func(cur []byte) {
+			if len(cur) > 0 {
+				words = append(words, string(cur))
+			}
+			if len(cur) == 3 {
+				return
+			}
+			for _, ch := range alphabet {
+				gen(append(append([]byte{}, cur...), ch))
+			}
+		}
+		gen(nil)
+		words = append(words, "P1Y2M3DT4H5M6.5S", "-P1D", "PT9999999999999999999S", "P99999999999999999999Y", "2021-03-04T05:06:07+25:00", "0000-00-00T00:00:00Z", "1e400", "-0", "0x10", " 1", "1 ")
+		top := c04Entries()[0]
+		for i := range universe.Structs {
+			s := &universe.Structs[i]
+			for _, f := range s.Fields {
+				switch f.Kind {
+				case universe.KTime, universe.KDuration, universe.KFloat, universe.KInt, universe.KUint, universe.KBool:
+				default:
+					continue
+				}
+				if s.Name != "Object" && universe.ByName("Object").FieldByTerm(f.Term) != nil {
+					continue // object-core properties once, on the plain object
+				}
+				s, f := s, f
+				c.Do("C04|UnmarshalJSON", func() string {
+					return fmt.Sprintf("UnmarshalJSON on {type:%s, %s:<every string of length <= 3 over %q, as JSON string and as bare token where that is valid JSON>}", s.SpecificName(), f.Term, alphabet)
+				}, func(t *engine.T) {
+					n := int64(0)
+					for _, w := range words {
+						q, _ := json.Marshal(w)
+						c04Try(t, top, "lexical", []byte(fmt.Sprintf(`{"type":%q,%q:%s}`, s.SpecificName(), f.Term, q)))
+						n++
+						if json.Valid([]byte(w)) {
+							c04Try(t, top, "lexical", []byte(fmt.Sprintf(`{"type":%q,%q:%s}`, s.SpecificName(), f.Term, w)))
+							n++
+						}
+					}
+					t.AddEvals(n-1, n-1)
 				})
 			}
 		}
